@@ -327,6 +327,7 @@ impl Visit for NoInferrableTypesVisitor<'_, '_> {
   }
 
   fn visit_class_prop(&mut self, prop: &ClassProp) {
+    prop.visit_children_with(self);
     if prop.readonly || prop.is_optional {
       return;
     }
@@ -337,10 +338,10 @@ impl Visit for NoInferrableTypesVisitor<'_, '_> {
         }
       }
     }
-    prop.visit_children_with(self);
   }
 
   fn visit_private_prop(&mut self, prop: &PrivateProp) {
+    prop.visit_children_with(self);
     if prop.readonly || prop.is_optional {
       return;
     }
@@ -349,7 +350,6 @@ impl Visit for NoInferrableTypesVisitor<'_, '_> {
         self.check_ts_type(init, ident_type_ann, prop.range());
       }
     }
-    prop.visit_children_with(self);
   }
 
   fn visit_var_decl(&mut self, var_decl: &VarDecl) {
